@@ -566,6 +566,8 @@ impl<W: Write> RdbWriter<W> {
                 // Get all items and write them
                 let len = skiplist.len();
                 self.write_length(len)?;
+                #[cfg(feature = "verif")]
+                crate::verif::yield_point(crate::verif::site::RDB_SHARED_VALUE, 0, 0);
                 
                 // Note: This is a suboptimal approach since we need to materialize
                 // all members in memory. A better approach would be to have a streaming
